@@ -57,6 +57,30 @@ def xspec(spec, rng):
     return xs
 
 
+def xspec_twin(spec, rng, p=0.6):
+    """like xspec, but some rules get a TWIN: same left-hand side, same length, byte-identical action text,
+    right-hand-side symbols with the OTHER union tag.  The action logs the rule through the reduce
+    function's own parameter instead of a literal, so the texts really are identical (an emitter that
+    reuses the rewritten text of one alternative for the other reads the wrong union field)."""
+    xs = xspec(spec, rng)
+    terms = xs["terms"]
+    by_tag = {"a": [t for t in terms if xs["tags"][t] == "a"], "b": [t for t in terms if xs["tags"][t] == "b"]}
+    rules, K, coef, form = [], [], [], []
+    for i, r in enumerate(spec["rules"]):
+        rules.append(r); K.append(xs["K"][i]); coef.append(xs["coef"][i]); form.append(xs["form"][i])
+        if r["rhs"] and rng.random() < p:
+            rhs = []
+            for s in r["rhs"]:
+                other = by_tag["b" if xs["tags"][s] == "a" else "a"]
+                rhs.append(rng.choice(other) if (s in terms and other) else s)
+            if rhs != r["rhs"]:
+                rules.append({"lhs": r["lhs"], "rhs": rhs, "prec": r.get("prec")})
+                K.append(xs["K"][i]); coef.append(xs["coef"][i]); form.append(xs["form"][i])
+    xs["rules"], xs["K"], xs["coef"], xs["form"] = rules, K, coef, form
+    xs["log_by_param"] = True
+    return xs
+
+
 def _expr(xs, i):
     e = str(xs["K"][i])
     for k, c in enumerate(xs["coef"][i]):
@@ -74,7 +98,7 @@ def _assign(xs, i):
     if form == 2:
         return "$$ = %s; if ($$ < 0) { $$ = 0 }" % e
     if form == 3:
-        return "$$ = 1; $$ = $$ + %d; $$ = %s" % (i, e)
+        return "$$ = 1; $$ = $$ + %d; $$ = %s" % (0 if xs.get("log_by_param") else i, e)
     return "$$ = %s" % e
 
 
@@ -84,13 +108,13 @@ def render_x(xs, target, pkg, obj, trace):
     if target == "go":
         prologue = "package %s\nimport \"fmt\"\nimport \"strings\"\nvar _ = strings.ToUpper\nvar _ = fmt.Sprint" % pkg
         union = " a int\n b int"
-        actions = ["Steps++; if Steps > %d { panic(\"STEPLIMIT\") }; Log = append(Log, %d); %s" %
-                   (STEP_LIMIT, i + 1, _assign(xs, i)) for i in range(len(xs["rules"]))]
+        actions = ["Steps++; if Steps > %d { panic(\"STEPLIMIT\") }; Log = append(Log, %s); %s" %
+                   (STEP_LIMIT, "reduceIndex" if xs.get("log_by_param") else str(i + 1), _assign(xs, i)) for i in range(len(xs["rules"]))]
     else:
         prologue = "// generated for verification"
         union = " a :number;\n b :number;"
-        actions = ["Steps++; if (Steps > %d) { throw new Error(\"STEPLIMIT\") }; Log.push(%d); %s" %
-                   (STEP_LIMIT, i + 1, _assign(xs, i)) for i in range(len(xs["rules"]))]
+        actions = ["Steps++; if (Steps > %d) { throw new Error(\"STEPLIMIT\") }; Log.push(%s); %s" %
+                   (STEP_LIMIT, "reduceIndex" if xs.get("log_by_param") else str(i + 1), _assign(xs, i)) for i in range(len(xs["rules"]))]
     out = ["%{\n" + prologue + "\n%}\n", "%union {\n" + union + "\n}\n"]
     for t in xs["terms"]:
         num = xs.get("nums", {}).get(t)
@@ -466,10 +490,12 @@ def _collect_ts(procs, runs):
         m["ts_rc"] = p.returncode
         m["ts_err"] = err.decode(errors="replace")[-2000:]
         for line in out.decode(errors="replace").split("\n"):
-            m2 = re.match(r'END ts "([^"]*)" (\S+) \[([^\]]*)\] (-?\d+) (\d+)', line)
+            m2 = re.match(r'END ts "([^"]*)" (\S+) \[([^\]]*)\] (\S+) (\d+)', line)
             if m2:
+                # a value that is not an integer (NaN, undefined) is kept as text: it differs from every expected value
+                val = int(m2.group(4)) if re.fullmatch(r"-?\d+", m2.group(4)) else m2.group(4)
                 runs[(m["pkg"], m2.group(1))] = {"verdict": m2.group(2), "log": _ints(m2.group(3)),
-                                                 "val": int(m2.group(4)), "req": int(m2.group(5)), "trace": []}
+                                                 "val": val, "req": int(m2.group(5)), "trace": []}
 
 
 def impl_run(res, c, vname, w):
@@ -756,3 +782,107 @@ func main() {
             mruns[(cur, int(f[1]))] = (norm_verdict(f[2]), [int(x) for x in f[5:]], int(f[4]))
     res["mruns"] = mruns
     return res
+
+
+# ---------------------------------------------------------------- C15: nested parses through the global template's context stack
+
+NESTED_Y = r"""%{
+package main
+import "fmt"
+import "bufio"
+import "os"
+%}
+%union {
+ val int
+ str string
+}
+%token <val> NUM
+%token <str> SUB
+%type <val> E
+%left '+'
+%start E
+%%
+E : E '+' E { $$ = $1 + $3 }
+  | NUM { $$ = $1 }
+  | SUB { PushContex(); ParserInit(); v := Parser($1); PopContex(); $$ = v.val * 2 }
+  ;
+%%
+func GetToken(input string, valTy *ValType, pos *int) int {
+	if *pos >= len(input) { return -1 }
+	c := input[*pos]
+	switch {
+	case c >= '0' && c <= '9':
+		n := 0
+		for *pos < len(input) && input[*pos] >= '0' && input[*pos] <= '9' { n = n*10 + int(input[*pos]-'0'); *pos++ }
+		valTy.val = n
+		return NUM
+	case c == '+':
+		*pos++
+		return '+'
+	case c == '{':
+		depth, i := 0, *pos
+		for ; i < len(input); i++ {
+			if input[i] == '{' { depth++ }
+			if input[i] == '}' { depth--; if depth == 0 { break } }
+		}
+		if i >= len(input) { *pos = len(input); return 9999 }
+		valTy.str = input[*pos+1 : i]
+		*pos = i + 1
+		return SUB
+	}
+	*pos++
+	return 9999
+}
+func run(in string) (out string) {
+	defer func() { if e := recover(); e != nil { out = "reject" } }()
+	ParserInit()
+	v := Parser(in)
+	if v == nil { return "nil" }
+	return fmt.Sprint("accept ", v.val)
+}
+func main() {
+	sc := bufio.NewScanner(os.Stdin)
+	for sc.Scan() { fmt.Println("OUT " + run(sc.Text())) }
+}
+"""
+
+NESTED_INPUTS = ["1+2", "{2}", "1+{2}", "100+{2+}", "1+{2}", "{1+{2}}", "7+{{3}+1}", "50+{{4+}+1}", "1+{2}", "{{1}+{2}}+3",
+                 "9+", "1+{2}", "{", "3+{4}+{5+{6}}", "100+{+}", "{1}+{2}"]
+
+
+def run_c15_nested(rng):
+    """A grammar whose action parses a sub-string with the SAME global parser (PushContex / ParserInit /
+    Parser / PopContex, the context stack of the package-global template).  A history of such parses,
+    some failing inside the nested parse, each preceded by ParserInit(); every result must equal the
+    result of the same input alone in a fresh process.  Returns (ties, violations, evaluations)."""
+    work = common.tmpdir("c15n")
+    ties, viol = [], []
+    open(os.path.join(work, "n.y"), "w").write(NESTED_Y)
+    open(os.path.join(work, "go.mod"), "w").write("module nested\n\ngo 1.18\n")
+    p = common.sh([os.path.join(common.BIN, "yaccgo"), "generate", "go", "n.y", "p.go"], cwd=work, timeout=60)
+    if p.returncode != 0 or not os.path.exists(os.path.join(work, "p.go")):
+        return [{"what": "nested-parse grammar is not generated", "detail": (p.stdout + p.stderr).decode(errors="replace")[-800:]}], [], 0
+    b = common.sh(["go", "build", "-o", "n.bin", "."], cwd=work, env=common.GOENV, timeout=300)
+    if b.returncode != 0:
+        return [{"what": "nested-parse parser does not compile", "detail": b.stderr.decode(errors="replace")[-1200:]}], [], 0
+    hist = list(NESTED_INPUTS)
+    extra = list(NESTED_INPUTS)
+    rng.shuffle(extra)
+    hist += extra
+
+    def go(lines):
+        r = common.sh([os.path.join(work, "n.bin")], inp=("\n".join(lines) + "\n").encode(), timeout=60)
+        return [l[4:] for l in r.stdout.decode(errors="replace").split("\n") if l.startswith("OUT ")]
+    solo = {}
+    for w in sorted(set(hist)):
+        o = go([w])
+        solo[w] = o[0] if o else None
+    got = go(hist)
+    if len(got) != len(hist):
+        ties.append({"what": "nested-parse history run incomplete", "got": len(got), "want": len(hist)})
+    for i, (w, g) in enumerate(zip(hist, got)):
+        if solo.get(w) is None:
+            ties.append({"what": "no solo reference run (nested)", "input": w})
+        elif g != solo[w]:
+            viol.append({"input": w, "position_in_history": i, "history": hist[:i + 1], "got": g, "alone": solo[w], "grammar_file": NESTED_Y})
+    return ties, viol, len(hist)
